@@ -345,25 +345,28 @@ def random_edge(rng: random.Random, kind: str | None = None) -> tuple[list, str]
     raise RuntimeError("could not generate edge definition " + kind)
 
 
-def same_end(ast: list, rng: random.Random) -> list | None:
+def same_end(ast: list, rng: random.Random, top_forks_only: bool = False) -> list | None:
     """Beyond fragment F: give the last event of EVERY branch of one AND/OR fork the same new
     event type (an event type then follows/precedes with counts > 1 and the learner emits
     branch counts).  Used by C05 only, judged on well-formedness and names.  None when no
-    fork qualifies."""
+    fork qualifies.  top_forks_only: only forks that are not inside a branch of another fork
+    (they may be inside loops) - nested ones are not robust on the unchanged tree (thorough
+    sweep, definition same293)."""
     import copy
     ast = copy.deepcopy(ast)
     forks: list = []
 
-    def walk(seq: list) -> None:
+    def walk(seq: list, fork_depth: int) -> None:
         for st in seq:
             if st[0] in ("and", "or", "xor"):
-                if st[0] in ("and", "or") and all(b and b[-1][0] == "ev" for b in st[1]):
+                if st[0] in ("and", "or") and all(b and b[-1][0] == "ev" for b in st[1]) \
+                        and not (top_forks_only and fork_depth):
                     forks.append(st)
                 for b in st[1]:
-                    walk(b)
+                    walk(b, fork_depth + 1)
             elif st[0] == "loop":
-                walk(st[1])
-    walk(ast)
+                walk(st[1], fork_depth)
+    walk(ast, 0)
     if not forks:
         return None
     f = rng.choice(forks)
@@ -546,7 +549,7 @@ def random_same_end(rng: random.Random) -> list:
             base = random_core(rng)
         else:
             base, _k = random_edge(rng, "E1")
-        t = same_end(base, rng)
+        t = same_end(base, rng, top_forks_only=True)
         if t is None:
             continue
         tg = tags_of(t)
